@@ -24,7 +24,14 @@ import (
 type Failure struct {
 	Sig string // stable signature, e.g. "C04/type-high-byte-ignored"
 	Msg string // human readable
+	// Optional: record this (smaller) case under this test name instead of the
+	// enumerated one, so that the replay file is executable by a Replay handler.
+	Case any
+	Test string
 }
+
+// As attaches a replayable case to the failure.
+func (f *Failure) As(test string, c any) *Failure { f.Test, f.Case = test, c; return f }
 
 func Failf(sig, format string, args ...any) *Failure {
 	return &Failure{Sig: sig, Msg: fmt.Sprintf(format, args...)}
@@ -240,6 +247,9 @@ func NewManual(t *testing.T, exhaustive bool, note string) *Manual {
 	if os.Getenv("HX_REPLAY") != "" {
 		t.Skip("replay mode")
 	}
+	if int(h64(t.Name())%uint64(Shards())) != Shard() {
+		t.Skip("enumeration runs in another shard")
+	}
 	mu.Lock()
 	defer mu.Unlock()
 	st := getStats(t.Name())
@@ -261,7 +271,11 @@ func (m *Manual) Case(c any, run func(*Ctx) *Failure) {
 		f = run(ctx)
 	}()
 	if f != nil {
-		writeFail(m.name, f.Sig, f.Msg, 0, c)
+		name := m.name
+		if f.Case != nil {
+			c, name = f.Case, f.Test
+		}
+		writeFail(name, f.Sig, f.Msg, 0, c)
 		cj, _ := json.Marshal(c)
 		m.t.Fatalf("FAIL sig=%s\n%s\ncase=%s", f.Sig, f.Msg, cj)
 	}
